@@ -28,6 +28,7 @@ def record(args):
     d = common.workdir('c11-' + label)
     try:
         rec = ductobs.DuctRecorder(dassh, FLUX_SCALE)
+        rec.expect_adiabatic = (case.get('gap_model', 'flow') == 'none')
         try:
             inp, r = cases.build(dassh, case, str(d))
             with rec:
@@ -111,6 +112,12 @@ def run(tier, res, replay=None):
             'rod2-dd-stagnant', 'multi-simple', 'multi-6node',
             'lowfi-simple', 'rod2-3duct', 'rod2-convapprox']
     lab = [(k, sl[k], 60 if tier == 'quick' else None) for k in keys]
+    # un-rodded regions of both kinds with the adiabatic option
+    for k in ('multi-6node', 'multi-simple', 'multi-convfactor'):
+        c = copy.deepcopy(sl[k])
+        c['gap_model'] = 'none'
+        c['bypass_fraction'] = 0.0
+        lab.append((k + '-adiabatic', c, None))
     cl = scenarios.core_lattice(rng, tier)
     lab += [(l, c, 40 if tier == 'quick' else None) for l, c in
             (cl[:2] if tier == 'quick' else cl)]
